@@ -1,7 +1,10 @@
-"""C04 correspondence: field acceptance, model (Grammar + side conditions) vs gfapy's safe decoders."""
+"""C04 correspondence: field acceptance, model (Grammar + side conditions) vs gfapy's safe decoders; and acceptance of
+whole lines (GfaModel/LineFmt.lean `acceptLine`: arity, positional datatypes, tag syntax, unique tag names, predefined
+tag types, cross-field rules) vs `gfapy.Line(text, version=v, vlevel=1)` on valid lines and their mutations."""
 import itertools
 from harness import lib
 from harness.lib import op
+from harness.props import _docgen as D
 
 ALPHA = {
     "A": "a~ !\t", "i": "09+-_ a", "f": "09+-.eE ", "Z": "a ~\t\n", "H": "09AFaG", "B": "cCfi,1-+.9",
@@ -49,11 +52,59 @@ def exhaustive_case(i, tier):
 
 
 def budget(tier):
-    return 0
+    return 400 if tier == "quick" else 8000
+
+
+MUT_CHARS = "\t +-*$,:;09aAZiJB=#"
+EXTRA_TAGS = ["LN:i:4", "LN:i:0", "LN:Z:4", "RC:i:1", "RC:f:1.5", "KC:Z:1", "xx:i:1", "xx:i:2", "xx:Z:a b", "x1:A:c", "1x:i:1",
+              "XX:i:1", "xx:i:", "xx:i", "xx::1", "SH:H:0A", "SH:H:0", "SH:Z:00", "UR:Z:x", "UR:i:3", "ID:Z:e1", "ID:i:1",
+              "TS:i:5", "TS:Z:5", "MQ:i:1", "MQ:f:1.0", "NM:A:x", "VN:Z:1.0", "VN:i:1", "ab:B:c,1,2", "ab:B:c,200",
+              "ab:H:1F", "ab:f:1e5", "ab:f:.", "ab:A:", "ab:A:xy"]
+
+
+def mutate(rng, line):
+    """one syntactic mutation of a line"""
+    f = line.split("\t")
+    k = rng.randrange(9)
+    if k == 0 and len(f) > 1:            # drop a field
+        del f[rng.randrange(1, len(f))]
+    elif k == 1:                         # duplicate a field
+        i = rng.randrange(len(f)); f.insert(i, f[i])
+    elif k == 2:                         # append a tag
+        f.append(rng.choice(EXTRA_TAGS))
+    elif k == 3 and len(f) > 1:          # replace a character
+        i = rng.randrange(1, len(f))
+        if f[i]:
+            j = rng.randrange(len(f[i])); f[i] = f[i][:j] + rng.choice(MUT_CHARS) + f[i][j + 1:]
+    elif k == 4 and len(f) > 1:          # delete a character
+        i = rng.randrange(1, len(f))
+        if f[i]:
+            j = rng.randrange(len(f[i])); f[i] = f[i][:j] + f[i][j + 1:]
+    elif k == 5 and len(f) > 1:          # insert a character
+        i = rng.randrange(1, len(f)); j = rng.randrange(len(f[i]) + 1); f[i] = f[i][:j] + rng.choice(MUT_CHARS) + f[i][j:]
+    elif k == 6 and len(f) > 2:          # swap two fields
+        i, j = rng.randrange(1, len(f)), rng.randrange(1, len(f)); f[i], f[j] = f[j], f[i]
+    elif k == 7:                         # two tags
+        f += [rng.choice(EXTRA_TAGS), rng.choice(EXTRA_TAGS)]
+    else:                                # empty a field
+        if len(f) > 1:
+            f[rng.randrange(1, len(f))] = ""
+    return "\t".join(f)
 
 
 def gen_case(rng, tier, i):
-    return {"dt": "i", "strings": ["0"]}
+    v = rng.choice(["gfa1", "gfa2"])
+    d = D.gen_doc(rng, version=v, max_lines=10, odd=0.3, no_custom=True)
+    lines = [l for l in d["lines"] if l.split("\t")[0] in ("H", "S", "L", "C", "P", "E", "G", "F", "O", "U")]
+    out = []
+    for l in lines:
+        out.append(l)
+        for _ in range(3):
+            m = l
+            for _ in range(rng.choice([1, 1, 2])):
+                m = mutate(rng, m)
+            out.append(m)
+    return {"dt": "line", "version": v, "strings": out}
 
 
 def tags(case):
@@ -74,8 +125,31 @@ def real_accepts(gfapy, dt, s):
         return False
 
 
+def line_ops(case):
+    gfapy = lib.import_gfapy()
+    v = case["version"]
+    ops, exp = [], []
+    for s in case["strings"]:
+        if ":J:" in s or "\n" in s or "\r" in s:
+            continue        # JSON well-formedness is outside the model
+        f = s.split("\t")
+        if f[0] not in ("H", "S", "L", "C", "P", "E", "G", "F", "O", "U"):
+            continue
+        r = lib.outcome(gfapy.Line, s, version=v, vlevel=1)
+        if r[0] == "foreign":
+            continue        # C07's business
+        if r[0] == "gerr" and r[1] == "VersionError":
+            e = "other"
+        else:
+            e = "true" if r[0] == "ok" else "false"
+        ops.append(op("line.accept", v, s)); exp.append("ok " + e)
+    return ops, exp
+
+
 def model_ops(case):
     gfapy = lib.import_gfapy()
+    if case["dt"] == "line":
+        return line_ops(case)
     ops, exp = [], []
     dt = case["dt"]
     for s in case["strings"]:
